@@ -74,3 +74,7 @@ HARNESSES = HARNESSES + [
     _m12.multi("restore_scan", "h_restore_scan", "model_allocator_checkpoint_restore log scan (<= 3 logs, arbitrary non-decreasing references, any target): the newest checkpoint not after the target is used, the table is cut right after it, later checkpoints are released once each, full_ckpt_size taken from it",
                 (4, 1), ("quick", "thorough"), to=900, pid="C05"),
 ]
+
+# (an invariant-based version of the restore scan for tables of symbolic length was attempted and dropped: the function
+#  dereferences the selected slot's checkpoint pointer, and 'every slot holds a valid pointer' is a forall-hypothesis that the
+#  ghost-index technique cannot supply - see DESIGN.md 7.7; the bounded restore_scan harness above stands in)
